@@ -361,8 +361,11 @@ inline bool Engine::remove_thread(Case& c, size_t t) {
   c.threads.erase(c.threads.begin() + static_cast<long>(t));
   const int id = static_cast<int>(t) + 1;
   std::vector<SchedEntry> ns;
+  const int nt = static_cast<int>(c.threads.size()) + 1;  // thread count before the erase
   for (auto e : c.sched) {
-    if (e.thread == id || e.to == id) continue;
+    if (e.thread == id) continue;
+    if (e.to == id) e.to = (id % nt) + 1;  // retarget to the next thread instead of losing the switch
+    if (e.to == id) continue;
     if (e.thread > id) e.thread--;
     if (e.to > id) e.to--;
     ns.push_back(e);
